@@ -235,6 +235,71 @@ func runC02(c *core.Ctx) {
 	c.Nontrivial(int(dn))
 	c.Count("sign/denormal_separation_triples", dn)
 
+	// (b'') generic nearly coplanar triples: c is a rounded linear combination of two points in
+	// general position (so the exact determinant is ~1e-17 and the float determinant is pure rounding
+	// noise of maximal size), with its ulp neighbourhood.  Besides the exact sign, the fast path is held
+	// to its documented error bound: triageSign must not report a definite sign when the float
+	// determinant it computed lies inside the bound 1.8274 * 2^-52 derived in its documentation.
+	gen := lattice.PGeneric(!c.Quick())
+	type gpair struct{ i, j int }
+	var gp []gpair
+	for i := range gen {
+		for j := i + 1; j < len(gen); j++ {
+			gp = append(gp, gpair{i, j})
+		}
+	}
+	combos := [][2]float64{{1, 1}, {1, -1}, {0.3, 2.1}, {-0.7, 1}, {1, -0.4}, {0.3, -0.4}, {-0.7, 2.1}, {2.9, 0.17}, {-1.3, -0.6}}
+	const documentedTriageBound = 1.8274 * 2.220446049250313e-16
+	KG := core.Pick(c, 1, 2)
+	c.ParallelFor(len(gp), func(k int) {
+		if c.Expired() {
+			return
+		}
+		a, b := gen[gp[k].i], gen[gp[k].j]
+		var evals, band, decidedInBand int64
+		for ci, co := range combos {
+			base := s2.Point{Vector: a.Mul(co[0]).Add(b.Mul(co[1])).Normalize()}
+			for pi, p := range lattice.PUlp(base, KG) {
+				if c.Skip("sign-generic", k, ci, pi) {
+					continue
+				}
+				evals++
+				cas := []int{k, ci, pi}
+				detail := func() any { return map[string]any{"a": ptStr(a), "b": ptStr(b), "c": ptStr(p)} }
+				c.Guard("sign-generic", cas, detail, func() {
+					want := refmodel.SoSSign(a, b, p)
+					for oi, o := range [][3]s2.Point{{a, b, p}, {b, a, p}, {p, a, b}} {
+						w := want
+						if oi == 1 {
+							w = -want
+						}
+						if got := int(s2.RobustSign(o[0], o[1], o[2])); got != w {
+							c.Violate("sign-generic", "wrong-answer", "RobustSign differs from the exact sign for a nearly coplanar triple of points in general position", cas, detail())
+						}
+						ts := int(s2.VerifTriageSign(o[0], o[1], o[2]))
+						d := o[0].Cross(o[1].Vector).Dot(o[2].Vector)
+						if math.Abs(d) <= documentedTriageBound {
+							band++
+							if ts != 0 {
+								decidedInBand++
+								c.Violate("sign-generic", "wrong-answer", "triageSign reports a definite sign although the float determinant lies inside its documented error bound (1.8274 * 2^-52)", cas, detail())
+							}
+						} else if ts != 0 && ts != w {
+							c.Violate("sign-generic", "wrong-answer", "triageSign returned a non-zero sign that is not the sign of the exact determinant", cas, detail())
+						}
+					}
+				})
+			}
+		}
+		c.Eval(int(evals))
+		c.Nontrivial(int(evals))
+		c.Count("generic/triples", evals)
+		c.Count("generic/float_determinant_inside_documented_bound", band)
+	})
+	if c.Expired() {
+		c.CapHit("sign-generic: wall budget reached")
+	}
+
 	// (c) chirotope axiom on every 5-subset of the P-deg part (answers of the implementation)
 	deg := lattice.PDeg(!c.Quick())
 	m := len(deg)
